@@ -82,7 +82,10 @@ impl<'data> DataVerifier<'data> {
 
     /// Verify each peers' signatures.
     pub fn verify(&self) -> Result<(), DataVerifierError> {
-        for peer_info in self.grouped_cids.values() {
+        // visit the peers in peer id order: the culprit named by the error must not depend on the hash map iteration order
+        let mut peers: Vec<_> = self.grouped_cids.iter().collect();
+        peers.sort_unstable_by(|a, b| a.0.cmp(b.0));
+        for (_, peer_info) in peers {
             peer_info
                 .public_key
                 .verify(&peer_info.cids, self.salt, peer_info.signature)
